@@ -32,11 +32,12 @@ AllUnits == <<
   UU(0, 0, {<<"sa", 1>>}), UU(0, 0, {<<"ma", 1>>, <<"sa", -1>>}), UU(0, 0, {<<"mb", 1>>, <<"sb", -1>>}),
   UU(0, 0, {<<"gb", 1>>}), UU(0, 0, {<<"fa", 1>>}), UU(0, 0, {<<"gb", 1>>, <<"ma", 1>>, <<"sa", -2>>}),
   UU(0, 0, {}), UU(0, 0, {<<"ma", 2>>}), UU(3, 0, {<<"sa", -1>>}), UU(0, 0, {<<"md", 2>>}), UU(3, 0, {}),       \* (kilo * One: a dimensionless unit that still carries a prefix)
+  UU(0, 3, {<<"ga", 1>>}),                       \* (2^3, the byte-like prefix: the same exponent as kilo in another base)
   \* thorough only from here
   UU(0, 0, {<<"mc", 1>>}), UU(0, 0, {<<"sb", 1>>}), UU(3, 0, {<<"mc", 1>>, <<"sb", -1>>}), UU(0, 0, {<<"ga", 1>>}),
-  UU(0, 0, {<<"mb", 2>>}), UU(0, 3, {<<"ga", 1>>}), UU(0, 0, {<<"ma", 1>>, <<"mb", -1>>}), UU(-3, 0, {<<"ga", 1>>}),
+  UU(0, 0, {<<"mb", 2>>}), UU(0, 0, {<<"ma", 1>>, <<"mb", -1>>}), UU(-3, 0, {<<"ga", 1>>}),
   UU(3, 0, {<<"ma", 2>>}), UU(0, 10, {<<"ma", 1>>, <<"sa", -1>>}) >>
-NU == IF Size = 1 THEN 15 ELSE Len(AllUnits)
+NU == IF Size = 1 THEN 16 ELSE Len(AllUnits)
 MCUnits == [t \in 1..NU |-> AllUnits[t]]
 MK(n, d, k) == [m |-> <<n, d>>, k |-> k]
 AllMags == << MK(-3, 1, "int"), MK(2, 1, "int"), MK(1, 2, "float"), MK(2, 1, "Decimal"), MK(0, 1, "int"),
